@@ -348,3 +348,92 @@ Theorem C16_truthy_guard_would_break_concat_example :
            (KV.Model.FlagsSel.cds_open KV.Model.FlagsSel.cur_plumbing flag_names ms) h)) = [[]; []; []].
 Proof. exact KV.Proofs.FlagsSelP.truthy_guard_breaks_concat. Qed.
 Print Assumptions C16_truthy_guard_would_break_concat_example.
+
+(* ======== round 3: `where applicable`, computed exactly from the chunk layout (Model/FlagsLost.v on top of C06's
+   Model/LostMap.v, imported unchanged) ========
+   A v4 data set is a LostMap.cfg c (the chunkings of correlator_data, flags, weights, weights_channel - ANY positive
+   chunk sizes, drawn independently per array, boundaries anywhere -, the set of chunks absent from the store, the
+   stored flag bytes, a preselected window) and the set `calok` of elements whose calibration correction is valid.
+   cfg_ok c p (Proofs/FlagsLostBaseP.v, = C06's): positive chunks, the arrays agree on the length of each axis they have, p is an element
+   of the loaded window.  lx_raw is d.raw_flags at p: the lost map of ChunkStoreVisFlagsWeights (intersect_chunks +
+   _apply_data_lost per flags chunk), apply_flags_correction and the regenerated indexer chain. *)
+From KV Require Import Model.Prune Model.LostMap Model.FlagsLost Proofs.FlagsLostBaseP Proofs.FlagsLostP.
+
+(* raw_flags = stored byte (nothing where the flags chunk itself is absent) | data_lost exactly on the elements covered by
+   an absent chunk of ANY of the four arrays (each in its own chunking) | postproc exactly where the correction is
+   invalid.  No selection history occurs in the statement: d.raw_flags has no transform and no mask. *)
+Theorem C16_v4_raw_flags_exact_lost_set : forall c calok p, cfg_ok c p ->
+  lx_raw c calok p
+  = Z.lor (Z.lor (if lost_in c A_FLAGS p then 0 else stored c A_FLAGS p)
+                 (if lost_in c A_FLAGS p || lost_in c A_VIS p || lost_in c A_W p || lost_in c A_WC p then 8 else 0))
+          (if calok p then 0 else 128).
+Proof. exact lx_raw_exact. Qed.
+Print Assumptions C16_v4_raw_flags_exact_lost_set.
+
+(* bit by bit: data_lost is set exactly where something covering p is absent (or it was stored), postproc exactly where
+   the correction is invalid (or it was stored), every other bit is the stored one *)
+Theorem C16_v4_raw_flag_bits_exact : forall c calok p, cfg_ok c p ->
+  Z.testbit (lx_raw c calok p) 3
+    = lx_any_lost c p || (negb (lost_in c A_FLAGS p) && Z.testbit (stored c A_FLAGS p) 3) /\
+  Z.testbit (lx_raw c calok p) 7
+    = negb (calok p) || (negb (lost_in c A_FLAGS p) && Z.testbit (stored c A_FLAGS p) 7) /\
+  forall i, 0 <= i -> i <> 3 -> i <> 7 ->
+    Z.testbit (lx_raw c calok p) i = negb (lost_in c A_FLAGS p) && Z.testbit (stored c A_FLAGS p) i.
+Proof. exact lx_raw_bits. Qed.
+Print Assumptions C16_v4_raw_flag_bits_exact.
+
+(* an element none of whose covering chunks is absent and whose correction is valid shows the stored byte, untouched -
+   whatever is lost elsewhere in ITS flags chunk and however the other arrays' chunks lie across the flags chunks *)
+Theorem C16_v4_raw_flags_untouched_where_nothing_lost : forall c calok p, cfg_ok c p ->
+  lx_any_lost c p = false -> calok p = true -> lx_raw c calok p = stored c A_FLAGS p.
+Proof. exact lx_raw_untouched. Qed.
+Print Assumptions C16_v4_raw_flags_untouched_where_nothing_lost.
+
+(* boolean flags after ANY history of select() calls = some bit of that derived byte is among the names currently
+   selected (the last flags= argument, all by default) *)
+Theorem C16_v4_flags_exact_lost_set : forall h c calok p, cfg_ok c p -> 0 <= stored c A_FLAGS p < 256 ->
+  lx_flag flag_names h c calok p
+  = existsb (fun i => Z.testbit (lx_raw c calok p) i && Z.testbit (spec_hist_mask h) i) [0;1;2;3;4;5;6;7].
+Proof. exact lx_flag_exact. Qed.
+Print Assumptions C16_v4_flags_exact_lost_set.
+
+(* the derived model refines the per-sample model: every C16_v4_... theorem above applies to the sample filled with the
+   exact lost sets *)
+Theorem C16_v4_lost_map_refines_sample : forall c calok p, cfg_ok c p ->
+  lx_raw c calok p = v4_raw (lx_sample c calok p) /\
+  s_lostf (lx_sample c calok p) = lost_in c A_FLAGS p /\ s_lostv (lx_sample c calok p) = lost_in c A_VIS p /\
+  s_lostw (lx_sample c calok p) = (lost_in c A_W p || lost_in c A_WC p) /\
+  s_stored (lx_sample c calok p) = stored c A_FLAGS p.
+Proof. exact lx_refines_sample. Qed.
+Print Assumptions C16_v4_lost_map_refines_sample.
+
+(* not vacuous, and the layout that defeats a "the lost chunk has the shape of this flags chunk, so all of it is lost"
+   short cut (seeded change C16-7): flags in time chunks (2,2,2), correlator_data in (1,2,2,1), the correlator_data
+   chunk of dumps 1-2 absent.  Dumps 1, 2 get data_lost; dumps 0 and 3, in the same two flags chunks, keep the stored byte. *)
+Theorem C16_v4_straddling_chunk_example :
+  (forall t, In t [0;1;2;3;4;5] -> cfg_ok ex_straddle [t; 1; 0]) /\
+  map (fun t => lx_raw ex_straddle all_true [t; 1; 0]) [0;1;2;3;4;5]
+  = map (fun t => Z.lor (stored ex_straddle A_FLAGS [t; 1; 0]) (if (1 <=? t) && (t <=? 2) then 8 else 0)) [0;1;2;3;4;5]
+  /\ map (fun t => stored ex_straddle A_FLAGS [t; 1; 0]) [0;1;2;3;4;5] = [3; 4; 5; 6; 7; 1]
+  /\ map (fun t => lx_flag flag_names [Some (SelStr "data_lost")] ex_straddle all_true [t; 1; 0]) [0;1;2;3;4;5]
+     = [false; true; true; false; false; false].
+Proof. exact (conj ex_straddle_ok ex_straddle_values). Qed.
+Print Assumptions C16_v4_straddling_chunk_example.
+
+(* d.flags read for the first time by ANY number of threads at once (every select() makes new indexers whose dask graph
+   is built lazily by DaskLazyIndexer.dataset - the site `site_dask` of C20's Model/LazyInit.v, regenerated from
+   katdal/lazy_indexer.py on every run): under EVERY interleaving, at source-line granularity, no reader fails, every
+   reader that has returned holds the graph with the WHOLE transform chain applied - boolean = some bit of the raw byte
+   among the names currently selected - and the graph was built exactly once.  (S = what the raw-flags indexer delivers
+   for a sample, V = what d.flags delivers, f = [bitwise_and unless the mask is all ones; view as bool].) *)
+Theorem C16_v4_flags_under_concurrent_first_reads :
+  forall (h : list (option selarg)) (raw : Z) (schedule : list nat), 0 <= raw < 256 ->
+  let c := KV.Model.LazyInit.exec Z bool (fun r => v4_flag r (hist_mask flag_names h)) KV.Model.LazyInit.site_dask
+                                  (KV.Model.LazyInit.mkSh None (Some raw) 0) schedule in
+  (forall t, KV.Model.LazyInit.c_th c t <> KV.Model.LazyInit.Failed) /\
+  (forall t lo, KV.Model.LazyInit.c_th c t = KV.Model.LazyInit.Done lo ->
+     KV.Model.LazyInit.lres lo = Some (spec_flag_bool raw (spec_hist_mask h))) /\
+  (KV.Model.LazyInit.c_lock c = None -> KV.Model.LazyInit.c_hist c <> [] ->
+   KV.Model.LazyInit.ncomp (KV.Model.LazyInit.c_sh c) = 1%nat).
+Proof. exact flags_first_reads_safe. Qed.
+Print Assumptions C16_v4_flags_under_concurrent_first_reads.
